@@ -1,6 +1,6 @@
 SPECIFICATION Spec
 CONSTANT Depth = 3
-CONSTANT Assume = {"A", "B", "D", "E"}
+CONSTANT Assume = {"D", "E"}
 CONSTRAINT Bound
 VIEW View
 INVARIANT Accepted
